@@ -415,6 +415,7 @@ def run_check(mod, tier, mods_for_replay=None):
                            "stub": ["GNU readline (simulated user)", "stdin/stdout/stderr end points (fopencookie)", "fopen (in-memory file system)", "isatty", "getenv", "exit/abort classifier"]},
             "flavours": list(flavours),
             "white_box_probe": white_box,
+            "white_box_probe_groups": builds[flavours[0]].get("probe_groups", []),
             "retried_after_alarm": counters.get("retried_after_alarm", 0),
             "wall_clock_cap_hit": capped,
             "violations_reported": reported,
